@@ -203,6 +203,7 @@ def base_scenario(rng, index):
     sc['prelude'] = rng.choice([None, None, None, 'ok-write', 'failed-write',
                                 'failed-load'])
     sc['global_flags'] = rng.choice([[], [], ['-q'], ['--debug']])
+    sc['source_gone'] = route in ('lib', 'lib-twice') and rng.random() < 0.2
     if route.startswith('build'):
         sc['build'] = {
             'lua': rng.choice(['cart', 'luafile', 'none']),
@@ -432,6 +433,10 @@ def _setup(w, sc):
 
     if route in LIB_ROUTES:
         g = pfile.from_file(w.p(src_rel))
+        if sc.get('source_gone') and route != 'lib-overwrite':
+            # the cart the game was loaded from is moved away before the
+            # game is saved under another name
+            os.rename(w.p(src_rel), w.p('in/moved_away.bin'))
         kwargs = {}
         wname = sc.get('writer')
         wargs = sc.get('writer_args')
